@@ -342,7 +342,7 @@ Proof.
     destruct (reps_sound _ _ _ _ _ _ _ E) as (bs & Eb & R).
     exists (opcode :: bs). split; [cbn [app]; f_equal; exact Eb|].
     cbn [calls_of flat_map app]. fold (calls_of its0). apply (D_run opcode op nc nreps); assumption. }
-  unfold drawing_step. rewrite E224.
+  unfold drawing_step, draw_group. rewrite E224.
   destruct (opcode =? 225) eqn:E225.
   { intros [= <- <- <-]. assert (opcode = 225) as -> by lia. exists [225]. split; [reflexivity|]. apply D_end. }
   assert (S : forall op k, simple_op opcode op k ->
